@@ -150,14 +150,15 @@ def hostile_pdus(rnd, ver):
 def streams(rnd, tier):
     """list of (description, events)"""
     out = []
-    k = 0
+    k = used = 0
     for ver in (1, 0):
         for desc, p in hostile_pdus(rnd, ver):
-            phases = PHASES if tier != "quick" else [PHASES[k % 4]]
-            if tier == "quick" and ver == 0 and k % 3:
+            if tier == "quick" and (k % 7 if ver == 0 else k % 3):
                 k += 1
                 continue
             k += 1
+            used += 1
+            phases = PHASES if tier != "quick" else [PHASES[used % 4]]
             for ph in phases:
                 pre, post = context(ver, ph)
                 out.append(("v%d %s %s" % (ver, ph, desc), pre + [("data", p + post)]))
@@ -244,9 +245,16 @@ def examine_stream(evs, rnd, modes):
     return None, None, None
 
 
+def pfx_exe():
+    """a private copy of the pfx_ops harness (the shared binary is relinked by other checks while this one runs)"""
+    if "c04" not in pfxlib._EXE:
+        pfxlib._EXE["c04"] = vlib.build_harness("pfx_ops_c04", os.path.join(vlib.VERIF, "harness", "pfx_ops.c"), san="asan")
+    return pfxlib._EXE["c04"]
+
+
 def hostbits_table_stress(rnd, n):
     """pfx_table operations with non-zero host bits on the real trie code (ASan+UBSan+asserts): crash = violation"""
-    exe = pfxlib.impl_exe()
+    exe = pfx_exe()
     for it in range(n):
         lines = []
         fam = rnd.choice("46")
@@ -360,7 +368,7 @@ def run(chk):
 def replay(path):
     o = json.load(open(path))
     if o.get("pfx_ops_script"):
-        rc, out = vlib.run_lines(pfxlib.impl_exe(), "\n".join(o["pfx_ops_script"]) + "\n", env=vlib.san_env(), timeout=60)
+        rc, out = vlib.run_lines(pfx_exe(), "\n".join(o["pfx_ops_script"]) + "\n", env=vlib.san_env(), timeout=60)
         print("\n".join(out[-20:]))
         return 0 if rc == 0 else 1
     lines = o.get("script")
